@@ -859,6 +859,16 @@ func immutability() {
 			k, _ := bitcoin.NewSchnorrPublicKeyFromPoint(p)
 			return k, func() { p.Negate(p); p.Identity() }
 		}},
+		{"bitcoin.NewSchnorrPublicKeyFromPoint(-p) (the other y parity)", func() (any, func()) {
+			p := lib.MkPTRep(q.Neg(), big.NewInt(0x33))
+			k, _ := bitcoin.NewSchnorrPublicKeyFromPoint(p)
+			return k, func() { p.Double(p); p.Negate(p) }
+		}},
+		{"bitcoin.NewSchnorrPublicKeyFromECDSA(pk of -p) (the other y parity)", func() (any, func()) {
+			pk := lib.MkPub(q.Neg())
+			k := bitcoin.NewSchnorrPublicKeyFromECDSA(pk)
+			return k, func() { scribble(pk) }
+		}},
 		{"bitcoin.NewSchnorrPublicKeyFromECDSA(pk)", func() (any, func()) {
 			pk := lib.MkPub(q)
 			k := bitcoin.NewSchnorrPublicKeyFromECDSA(pk)
